@@ -45,10 +45,18 @@ func nodesOf(names []string, permute bool) map[string]cluster.NodeInfo {
 		}
 	}
 	for _, n := range order {
+		if dcOf(n) == untaggedDC {
+			// a node that was never given a data centre tag (it belongs to the default, unnamed one)
+			m[n] = cluster.NodeInfo{ID: n}
+			continue
+		}
 		m[n] = cluster.NodeInfo{ID: n, Tags: map[string]interface{}{cluster.DCInfoTag: "dc" + dcOf(n)}}
 	}
 	return m
 }
+
+// untaggedDC: the nodes of this data centre number carry no tag in the node maps built by nodesOf ("" = all tagged).
+var untaggedDC string
 
 func (t Topo) Names() []string {
 	var out []string
@@ -192,7 +200,31 @@ func RunFresh(col *ev.Collector, maxN int, partsList []int, dl ev.Deadline) (st 
 			}
 		}
 	}
+	// every topology with at least two data centres once more with the nodes of its last data centre untagged
+	// (a partly configured cluster): the unnamed data centre is a data centre like the others
+	var all []struct {
+		t        Topo
+		untagged bool
+	}
 	for _, t := range topos {
+		all = append(all, struct {
+			t        Topo
+			untagged bool
+		}{t, false})
+		if len(t) >= 2 && t.Total() <= 12 {
+			all = append(all, struct {
+				t        Topo
+				untagged bool
+			}{t, true})
+		}
+	}
+	defer func() { untaggedDC = "" }()
+	for _, tv := range all {
+		t := tv.t
+		untaggedDC = ""
+		if tv.untagged {
+			untaggedDC = fmt.Sprint(len(t))
+		}
 		if dl.Hit() {
 			return st, false
 		}
@@ -201,7 +233,14 @@ func RunFresh(col *ev.Collector, maxN int, partsList []int, dl ev.Deadline) (st 
 			for replica := 1; replica <= 5; replica++ {
 				for _, ver := range []string{"v1", "v2"} {
 					for _, ns := range []string{"a", "test", "ns2"} {
-						l, ok := checkLayout(col, ver, ns, names, parts, replica, nil, "fresh layout on "+t.String())
+						what := "fresh layout on " + t.String()
+						if tv.untagged {
+							what += " (last data centre untagged)"
+							// iteration over the node map starts at a random element: more calls make a dependence on it show
+							checkLayout(col, ver, ns, names, parts, replica, nil, what)
+							checkLayout(col, ver, ns, names, parts, replica, nil, what)
+						}
+						l, ok := checkLayout(col, ver, ns, names, parts, replica, nil, what)
 						st.Layouts++
 						if !ok {
 							st.Refusals++
